@@ -108,4 +108,54 @@ theorem toDurationNs_range (fs : Fields) : minI64 ≤ toDurationNs fs ∧ toDura
       · exact wrap64_range _
   · exact wrap64_range _
 
+/-! ## DurationValueWithinP -/
+
+theorem fmin_abs (x y : Int) :
+    F.min (F.abs (F.ofRat x)) (F.abs (F.ofRat y)) = .fin (minAbs x y) false := by
+  simp only [F.min, F.abs, F.ofRat, minAbs, F.isNaN]
+  by_cases h0 : (x : Rat).abs = 0 ∧ (y : Rat).abs = 0
+  · simp [h0.1, h0.2]
+  · by_cases hlt : (x : Rat).abs < (y : Rat).abs
+    · simp only [hlt, if_true]
+      simp
+      intro hx hy; subst hx hy; exact absurd ⟨rfl, rfl⟩ h0
+    · simp only [hlt, if_false]
+      simp
+      intro hx hy; subst hx hy; exact absurd ⟨rfl, rfl⟩ h0
+
+theorem durWithinPD_iff (p : Rat) (z : Bool) (xd yd : Int) :
+    durWithinPD (.fin p z) xd yd = true ↔ ((xd : Rat) - (yd : Rat)).abs * 100 ≤ p * minAbs xd yd := by
+  unfold durWithinPD
+  simp only [fmin_abs]
+  simp [F.sub, F.abs, F.ofRat, F.mul, F.le]
+
+theorem minAbs_comm (x y : Int) : minAbs x y = minAbs y x := by
+  unfold minAbs
+  by_cases h1 : (x : Rat).abs < (y : Rat).abs
+  · have : ¬ (y : Rat).abs < (x : Rat).abs := by grind
+    simp [h1, this]
+  · by_cases h2 : (y : Rat).abs < (x : Rat).abs
+    · simp [h1, h2]
+    · simp [h1, h2]; grind
+
+theorem abs_sub_comm' (a b : Rat) : (a - b).abs = (b - a).abs := by
+  have : a - b = -(b - a) := by grind
+  rw [this, Rat.abs_neg]
+
+theorem durWithinPD_symm (p : F) (xd yd : Int) : durWithinPD p xd yd = durWithinPD p yd xd := by
+  unfold durWithinPD
+  simp only [fmin_abs, minAbs_comm xd yd]
+  simp only [F.sub, F.abs, F.ofRat, abs_sub_comm' (xd : Rat) (yd : Rat)]
+
+theorem durWithinPD_refl (p : Rat) (z : Bool) (hp : 0 ≤ p) (xd : Int) : durWithinPD (.fin p z) xd xd = true := by
+  rw [durWithinPD_iff]
+  have h0 : ((xd : Rat) - (xd : Rat)).abs = 0 := by
+    have : (xd : Rat) - (xd : Rat) = 0 := by grind
+    rw [this]; rfl
+  rw [h0]
+  have hm : 0 ≤ minAbs xd xd := by
+    unfold minAbs; simp
+  have := Rat.mul_nonneg hp hm
+  grind
+
 end ScVerif.C16
